@@ -45,6 +45,7 @@ def cases(tier, seed):
             if dt in ("float16", "float32"):
                 out.append(dict(kind="requant", dtype=dt, qtype=q))
     shapes = _shapes(tier)
+    shapes = list(shapes) + [s for s in wq.quantizer_threshold_shapes(hi=256) if s not in shapes]  # empty on the pinned tree
     n = 3 if tier == "quick" else 6
     for dt in ("float16", "float32") if tier == "quick" else ("float16", "bfloat16", "float32"):
         for q in wq.QTB:
